@@ -22,7 +22,9 @@ def run(ck):
     ck.conform(mprogs)
     q = ck.tier == "quick"
     tids = gen.Tids()
-    progs = walks.walk_programs(ck.seed, 320 if q else 6000, depth=7 if q else 9, tids=tids)
+    from harness.drivers import history
+    progs = history.derived_programs(ck.seed, 40 if q else 800, tids=tids)
+    progs += walks.walk_programs(ck.seed, 320 if q else 6000, depth=7 if q else 9, tids=tids)
     ck.cov["rule"] = ("adaptive random walks of 7-9 public calls (structure, fuse/unfuse/reshape, contraction in every mode, "
                       "arithmetic, phase operations, decompositions) from random sparse inputs over Z2/U1/Z2Z2/U1U1/Z4, static and "
                       "dynamic classes, four dtypes; Valid() is evaluated by TLC on every array of every event")
